@@ -33,6 +33,7 @@ type outcome struct {
 
 func evalScript(ctx *hx.Ctx, c *Case) (*Run, outcome) {
 	r := Exec(c.Script)
+	defer r.Close()
 	var o outcome
 	if len(r.Errs) > 0 {
 		o.harness = strings.Join(r.Errs, "; ")
@@ -183,6 +184,7 @@ func RunCases(ctx *hx.Ctx, cases []*Case, nontrivial func(*Run, *Script) bool) {
 		}
 		ps = append(ps, p)
 		lines = append(lines, r.OracleLine(ModelGuard))
+		r.Close()
 	}
 	ans := AskParallel(ctx.Oracle, lines, 16)
 	for i, p := range ps {
